@@ -138,6 +138,11 @@ func (fc *FnCtx) trIdent(st *State, id *ast.Ident) Val {
 		if v, ok := fc.scope.lookupVal(id.Name); ok {
 			return v
 		}
+		if strings.HasPrefix(id.Name, "rangeIndex") {
+			if v, ok := st.env[id.Name]; ok {
+				return v
+			}
+		}
 		if o, ok := fc.scope.lookupObj(id.Name); ok {
 			obj = o
 		} else if p := fc.scope.thePkg(); p != nil {
@@ -373,6 +378,18 @@ func (fc *FnCtx) trIndex(st *State, x *ast.IndexExpr) Val {
 	case SMap:
 		k := fc.tr(st, x.Index)
 		return fc.mapRead(st, base, k, fc.typeOf(x))
+	case SLL:
+		i := fc.tr(st, x.Index)
+		if fc.safetyOn() {
+			ord := fc.siteOrdinal("index", x)
+			fc.oblige(st, fmt.Sprintf("index#%d", ord), "index", fc.contract.safetyTags(),
+				"(and (<= 0 "+i.T+") (< "+i.T+" "+base.Rec+"))", "index in range: "+exprString(x), x)
+		}
+		if i.T != "0" {
+			fc.unmodelled["element "+exprString(x)+" of a FindAll result (only [0] is modelled)"] = true
+			return fc.freshVal(st, "llelem", SSL, nil)
+		}
+		return Val{T: base.T, S: SSL}
 	}
 	fc.errorf("%s: unsupported index base sort %d in %s", fc.posOf(x), base.S, exprString(x))
 	return fc.freshVal(st, "idx", sortOf(fc.typeOf(x)), fc.typeOf(x))
